@@ -194,7 +194,7 @@ def C05(F, rep, tier, cx):
 
 def C06(F, rep, tier, cx):
     """K2 wait form; K3 notify completeness (role-aware); K4 lock order; K5 end-of-stream on every worker exit a valid session can take;
-    K6 release-before-join; K10 no exception leaves a thread body; T2 request size <= admission threshold (conditional lemma) Also: K2a bare disjuncts, K2s sibling waits, K2u signed fill level (fill-level protocol), T2 hand-off shape, P6 no rewind after a drop, R2 the end handling on every path of read()."""
+    K6 release-before-join; K10 no exception leaves a thread body; T2 request size <= admission threshold (conditional lemma) Also: K2a bare disjuncts, K2s sibling waits, K2u signed fill level (fill-level protocol), T2 hand-off shape, P6 no rewind after a drop, R2 the end handling on every path of read(), S1 the re-synchronisation loop leaves at end-of-file."""
     RP.K1(F, rep, cx.R)   # carries the K4|self obligations; K1 itself is C11's
     rep.obs = [o for o in rep.obs if o['rule'] != 'K1']
     rep.counts.pop('K1', None)
@@ -211,11 +211,12 @@ def C06(F, rep, tier, cx):
     RP.P6(F, rep, cx.R, cx.FL)   # a rewind into released data makes the decoder spin on an empty, 'good' stream
     RF.R2(F, rep, cx.FL)         # ... and so does a read() that returns short without reporting the end
     RP.K5v(F, rep, cx.R)         # the declared end is the put position of the stage, not a count kept on the side
+    RF.S1e(F, rep, cx.FL)        # the re-synchronisation loop ends at end-of-file on every alternative (else read() spins in a worker)
 
 
 def C07(F, rep, tier, cx):
     """K7 single producer / single consumer per stage and mode; K8 no transfer after end-of-stream; Q2 eof only on the empty branch;
-    K1 all stage state under the stage mutex Also: K2/K2a, K11 no decision on a racy snapshot, K12 drained write sessions, K2u, T2, O1."""
+    K1 all stage state under the stage mutex Also: K2/K2a, K11 no decision on a racy snapshot, K12 drained write sessions, K2u, T2, O1, S4 seekg independent of the put position."""
     ws = RP.K2(F, rep, cx.R)   # a timed or bare wait makes the outcome depend on the schedule
     cx._ws = ws
     RP.K7(F, rep, cx.R, ws)
@@ -232,6 +233,7 @@ def C07(F, rep, tier, cx):
     RP.K1(F, rep, cx.R)
     rep.obs = [o for o in rep.obs if o['rule'] != 'K4']
     rep.counts.pop('K4', None)
+    RF.S4(F, rep)   # the get position after a seek is a function of the request and the declared end, never of how far the producer got
 
 
 def C08(F, rep, tier, cx):
@@ -295,6 +297,7 @@ def C11(F, rep, tier, cx):
     RP.K1(F, rep, cx.R)
     rep.obs = [o for o in rep.obs if o['rule'] != 'K4']
     rep.counts.pop('K4', None)
+    RF.S4(F, rep)   # the get position after a seek is a function of the request and the declared end, never of how far the producer got
     RF.K9(F, rep, cx.R, cx.FL)
     RF.G1(F, rep)
     RF.O5(F, rep)
@@ -370,7 +373,7 @@ def C16(F, rep, tier, cx):
 
 def C17(F, rep, tier, cx):
     """D1 factory <-> constructor agreement for all enumerators and classes; D2 reserved/unknown -> null; D3 exhaustive switch;
-    D4 complete member initialisation; D5 code flows ctor -> field -> write Also: D6, D7 frozen numeric codes, G1, S2 the factory is asked unconditionally."""
+    D4 complete member initialisation; D5 code flows ctor -> field -> write Also: D6, D7 frozen numeric codes, G1, S2 the factory is asked unconditionally, A1 write() passes every object on."""
     RD.D123(F, rep)
     RD.D5(F, rep, None)
     RD.D4(F, rep)
@@ -378,6 +381,7 @@ def C17(F, rep, tier, cx):
     RF.G1(F, rep)   # the factory's input (the peeked header) is not shared between File instances / threads
     RD.D7(F, rep)   # the numbers themselves are the format
     RF.S2S3(F, rep, cx.FL, {'S2'})   # every object whose type the factory knows is built by it: the factory is asked unconditionally, nothing else skips
+    RF.A1(F, rep, cx.FL)             # 'is written under that code': File::write() hands every object, whatever its code, to the queue
 
 
 def advisory_unreachable(F):
